@@ -208,14 +208,6 @@ def r3(k: Kit) -> None:
     def made_by(v, maker):
         return isinstance(v, ast.Call) and isinstance(v.func, ast.Call) \
             and is_call(v.func, maker)
-    encs = [v for n, v in k.stores_to(se, 'self._encoder') if v is not None
-            and not (isinstance(v, ast.Constant) and v.value is None)]
-    rep.check(bool(encs) and all(made_by(v, 'getincrementalencoder')
-                                 for v in encs),
-              'C07.R3', key(se, 'incremental codecs'),
-              'incremental encoder per channel',
-              'set_encoding does not create an incremental encoder',
-              se.loc(se.node))
     dd = k.func(CH + '_deliver_data')
     g = k.cfg(dd)
     rd = k.rd(dd)
@@ -264,13 +256,35 @@ def r3(k: Kit) -> None:
                   'character split across packets is corrupted',
                   k.loc(dd, n))
     wr = k.func(CH + 'write')
-    rep.check(any(is_call(c, 'encode', 'self._encoder')
-                  for c in walk_shallow(wr.node)) and not any(
-                      is_call(c, 'encode') and dotted(c.func.value) not in
-                      ('self._encoder',) for c in walk_shallow(wr.node)),
-              'C07.R3', key(wr, 'incremental encode'),
-              'written text goes through the incremental encoder',
-              'write() encodes with a one-shot encode', wr.loc(wr.node))
+    gw = k.cfg(wr)
+    rdw = k.rd(wr)
+    encs = [(n, c) for n, c in k.call_nodes(wr, lambda c: is_call(c, 'encode'))]
+    rep.floor('C07.R3', 'encode sites in write', len(encs), 1)
+    for n, c in encs:
+        src_l, _ = expr_sources(gw, rdw, n.id, c.func.value)
+        oke = True
+        for l in list(src_l) + [c.func.value]:
+            if made_by(l, 'getincrementalencoder') or isinstance(l, ast.Name):
+                continue
+            d = dotted(l) if not isinstance(l, ast.Call) else \
+                dotted(l.func.value) if isinstance(l.func, ast.Attribute) \
+                else None
+            if d and d.startswith('self._encoder'):
+                continue
+            if isinstance(l, ast.Constant) and l.value is None:
+                continue
+            oke = False
+        rep.check(oke, 'C07.R3', key(wr, 'incremental encode'),
+                  'written text goes through an incremental encoder',
+                  'write() encodes with a one-shot encode', k.loc(wr, n))
+        per = 'datatype' in depends_on(gw, rdw, n.id, c.func.value)
+        rep.check(per, 'C07.R3', key(wr, 'encoder per data type'),
+                  'the incremental encoder is selected by the data type',
+                  'stdout and stderr share one incremental encoder: with a '
+                  'stateful encoding (iso2022_jp) the shift state of one '
+                  'stream leaks into the other - the receiver, which '
+                  'decodes each data type on its own, gets garbage on '
+                  'stderr', k.loc(wr, n))
     fr = k.func(CH + '_flush_recv_buf')
     g = k.cfg(fr)
     finals = [(n, c) for n, c in k.call_nodes(
@@ -826,3 +840,14 @@ def run(idx, rep, tier):
                   'first X11 request, when it arrives in the same chunk as '
                   'the setup block, is lost (17 of 65 bytes dropped)',
                   k.loc(_fi, _n))
+    # C07.R12: shared rule
+    from .c20 import r3 as _c20r3
+    rep.rule('C07.R12', 'EOF through a forwarder (= eof rows of C20.R3): an EOF from the local socket that arrives before the forwarded channel is open is remembered and relayed once it is - the remote side gets the early data and the end of file')
+    _before = len(rep.obligations)
+    _c20r3(k)
+    _kept = [o for o in rep.obligations[_before:] if 'eof' in o.key]
+    del rep.obligations[_before:]
+    rep.obligations.extend(_kept)
+    rep.floor('C07.R12', 'shared rows', len(_kept), 1)
+    for o in rep.obligations[_before:]:
+        o.rule = 'C07.R12'
